@@ -246,10 +246,11 @@ namespace awkward {
     if (vm_ == nullptr) {
       vm_ = vm;
 
+      // holds the one item that set_data() hands to the machine: up to a complex128
       std::shared_ptr<void> ptr(
-        kernel::malloc<void>(kernel::lib::cpu, 8*sizeof(uint8_t)));
+        kernel::malloc<void>(kernel::lib::cpu, 16*sizeof(uint8_t)));
 
-      vm_inputs_map_[vm_input_data_] = std::make_shared<ForthInputBuffer>(ptr, 0, 8);
+      vm_inputs_map_[vm_input_data_] = std::make_shared<ForthInputBuffer>(ptr, 0, 16);
       vm_.get()->run(vm_inputs_map_);
     }
     else {
@@ -263,10 +264,13 @@ namespace awkward {
   LayoutBuilder::initialise() {
     vm_ = std::make_shared<ForthMachine32>(vm_source());
 
+    // holds the one item that set_data() hands to the machine: up to a complex128,
+    // whatever the initial size of the output buffers is
+    int64_t datasize = (initial_ > 16 ? initial_ : 16);
     std::shared_ptr<void> ptr(
-      kernel::malloc<void>(kernel::lib::cpu, initial_*(int64_t)sizeof(uint8_t)));
+      kernel::malloc<void>(kernel::lib::cpu, datasize*(int64_t)sizeof(uint8_t)));
 
-    vm_inputs_map_[vm_input_data_] = std::make_shared<ForthInputBuffer>(ptr, 0, initial_);
+    vm_inputs_map_[vm_input_data_] = std::make_shared<ForthInputBuffer>(ptr, 0, datasize);
     vm_.get()->run(vm_inputs_map_);
   }
 
